@@ -16,9 +16,9 @@ INVARIANTS
   I_NoPanic I_InSpace I_NoTaken I_SortedUnique I_AtMost I_RandomCount
   I_SpreadFromReserve I_SpreadCount I_SpreadLowestFirst I_SpreadExact I_ZoneCongruent
   I_ObsShape I_Reproducible I_ReservesDisjoint
-  I_FamilyShape I_FamilyReproducible I_FamilyDisjoint
+  I_FamilyShape I_FamilyReproducible I_FamilyDisjoint I_RingIsFamily I_NoDonorStarved
   I_CanJoin I_CanJoinEnabled I_Constructor I_PartitionNoPanic
-  I_PartitionTokens I_PartitionsDisjoint I_AllDistinct I_SpreadOwnReserve
+  I_PartitionTokens I_PartitionsDisjoint I_AllDistinct I_SpreadOwnReserve I_PrefixWhenGrowing
 PROPERTIES A_NeverShort
 ALIAS TraceAlias
 CHECK_DEADLOCK TRUE
